@@ -70,6 +70,19 @@ CHECKS = {
         "edit is compared with the reference of the edited spec.",
         "Trusts vlib/ratelaw.Model (default_state/default_flags), vlib/si.py, vlib/build_model.py; bare "
         "numbers written with set_state are taken in the system's unit system (as the state setter does)."),
+    "C04": (
+        "Hypothesis metamorphic testing: one SI spec rendered in two unit descriptions (+ reference law); "
+        "same script under two output unit systems",
+        "Exploration. A physical system drawn in SI is rendered twice with independent unit declarations at "
+        "every nesting level (explicit / inherit / default / omitted, all 1100 systems) and independent "
+        "bare-vs-explicit forms for every dimensioned field, built through constructors or dictionary "
+        "readers; initial state, chemostat map, rate of change and N Euler steps must agree in SI between the "
+        "renderings and with the reference law; one script simulated under two output unit systems (all "
+        "engines, three sampling policies) may differ only by the scale factor and must be expressed in the "
+        "requested units.",
+        "Trusts vlib/ratelaw.py, vlib/si.py, vlib/build_model.py. Requested sample times are kept mid-step so "
+        "that unit rounding cannot move a sampling decision; Gillespie sample counts that differ under unit "
+        "rounding of requested times are skipped and counted."),
 }
 
 NOT_BUILT = "check not built yet in this working session (planned; DESIGN.md section 4)"
